@@ -317,11 +317,25 @@ CH = {
     "P8": {"A": ["adv1"], "B": ["upd_adv1"], "X": ["adv2"]},
 }
 CPLAN = {
-    "quick": [(h, "line", 2) for h in ("P1", "P3", "P4", "P5")] + [(h, "line", 1) for h in ("P2", "P6", "P7", "P8")]
-             + [(h, "coarse", 3) for h in CH],
+    "quick": [(h, "line", 2) for h in ("P1", "P2", "P3", "P4", "P5", "P7")] + [(h, "line", 1) for h in ("P6", "P8")]
+             + [(h, "coarse", 2) for h in CH],
     "thorough": [(h, "line", 3) for h in ("P1", "P3", "P4", "P5")] + [(h, "line", 2) for h in ("P2", "P6", "P7", "P8")]
-                + [(h, "coarse", 4) for h in CH],
+                + [(h, "coarse", 3) for h in CH],
 }
+_SKIP = {}
+
+
+def _progress_only():
+    """Scheduling points at line/bytecode level only inside rich.progress: the accounting state
+    (tasks, samples) is touched by no other module; console/live_render/file_proxy keep their
+    lock, event and write points."""
+    if "codes" not in _SKIP:
+        import importlib
+        codes = set()
+        for name in ("rich.console", "rich.live_render", "rich.file_proxy", "rich.live"):
+            codes |= set(sched._code_objects(importlib.import_module(name)))
+        _SKIP["codes"] = frozenset(codes)
+    sched.SKIP_CODES = _SKIP["codes"]
 
 
 def _cbuild(s):
@@ -406,7 +420,7 @@ def _cjudge(hid, s, obs):
 def _run_conc(sh, res):
     hid, gran, bound = sh["h"], sh["gran"], sh["bound"]
     sched.install()
-    sched.SKIP_CODES = frozenset()
+    _progress_only()
     _cseq(hid)
 
     def judge(s, obs):
@@ -452,7 +466,7 @@ def _track_auto_make(n, kind):
 
 def _run_track_auto(sh, res):
     sched.install()
-    sched.SKIP_CODES = frozenset()
+    _progress_only()
     n, kind = sh["n"], sh["kind"]
 
     def judge(s, obs):
@@ -469,7 +483,7 @@ def _run_track_auto(sh, res):
         res.sig(("track-auto", n, kind, s.timeouts_fired), nontrivial=s.timeouts_fired > 0)
         res.count("choice_points", len(s.choices))
     st = sched.explore(_track_auto_make(n, kind), sh["bound"], judge, granularity="line", timeout_budget=sh["tb"],
-                       stop=deadline_passed)
+                       first_level=(sh["i"], sh["nsh"]), stop=deadline_passed)
     res.count("schedules", st["executions"])
     if not st["complete"]:
         res.capped = True
@@ -485,11 +499,13 @@ def plan(tier, seed):
     for i in range(4):
         shards.append({"part": "seq2", "i": i, "n": 4, "depth": depth2})
     shards.append({"part": "track"})
-    for n in range(0, 4):
+    for n in range(0, 3 if tier == "quick" else 5):
         for kind in ("list", "generator"):
-            shards.append({"part": "track-auto", "n": n, "kind": kind, "tb": 2, "bound": 2 if tier == "quick" else 3})
+            for i in range(4):
+                shards.append({"part": "track-auto", "n": n, "kind": kind, "tb": 2, "bound": 2 if tier == "quick" else 3,
+                               "i": i, "nsh": 4})
     for h, gran, bound in CPLAN[tier]:
-        n = 1 if gran == "coarse" else 8
+        n = 2 if gran == "coarse" else 8
         for i in range(n):
             shards.append({"part": "conc", "h": h, "gran": gran, "bound": bound, "i": i, "n": n})
     return shards
@@ -569,7 +585,7 @@ def replay(case):
         _check_track_seq(case, res)
     elif part == "conc":
         sched.install()
-        sched.SKIP_CODES = frozenset()
+        _progress_only()
         s, obs = sched.run_once(_cmake(case["h"]), case["choices"], case["gran"], 0)
         if s.problem and s.problem.startswith("divergence"):
             return [("replay-divergence", s.problem)]
@@ -577,6 +593,7 @@ def replay(case):
         return sorted(set(vio))
     elif part == "track-auto":
         sched.install()
+        _progress_only()
         s, obs = sched.run_once(_track_auto_make(case["n"], case["kind"]), case["choices"], "line", case["tb"])
         out = []
         if s.problem:
